@@ -93,10 +93,14 @@ def gen_program(rng, profile):
     # batch function behaviour
     durs = [(0.0, 4), (0.125, 3), (0.25, 2), (bt * 3, 1), (1.0, 1)]
     prog['batch_dur'] = [_w(rng, durs) for _ in range(4)]
+    # work after the last yield (flush, commit, logging ...): the execution is still in progress then
+    prog['tail_dur'] = [_w(rng, [(0.0, 5), (0.0625, 2), (0.25, 2), (1.0, 1)]) for _ in range(4)]
+    # the batch function may be a plain callable returning an async iterable, failing at call time for some batches
+    prog['call_time_raise'] = [rng.random() < 0.12 for _ in range(4)] if base in ('c04', 'c09') else [False] * 4
     prog['item_dur'] = [_w(rng, [(0.0, 5), (0.125, 3), (0.03125, 2)]) for _ in range(4)]
     if base in ('c10', 'c11'):
         # C10: failing batch functions are not anomalies of the protocol: the limits must survive them
-        behs = [('value', 8), ('exc', 2)] if base == 'c11' else [('value', 8), ('exc', 1), ('omit', 1), ('raise', 2)]
+        behs = [('value', 7), ('exc', 2), ('omit', 1.5), ('raise', 1.5)] if base == 'c11' else [('value', 8), ('exc', 1), ('omit', 1), ('raise', 2)]
     else:
         behs = [('value', 10), ('none', 1), ('zero', 1), ('empty', 1), ('cls', 1), ('exc', 4), ('exc_sub', 2),
                 ('omit', 3), ('raise', 3), ('twice', 1), ('unknown', 1)]
@@ -180,6 +184,20 @@ class BatcherWorld:
         row = script[hash_key(key) % len(script)]
         return row[n % len(row)]
 
+    def bf_entry(self, items):
+        """What the batcher is given: an ordinary callable that validates and returns the async iterable."""
+        b = len(self.batches)
+        if self.prog.get('call_time_raise', [False] * 4)[b % 4]:
+            items = list(items)
+            B = Batch(b, items, self.sch.clock, self.sch.step)
+            B.end = self.sch.clock
+            B.raised = BatchError(b, 'call-time')
+            self.batches.append(B)
+            self.count('bf.raise_at_call_time')
+            self.sch.log('batch', b, [k for k, _ in items], 'call-time-raise')
+            raise B.raised
+        return self.bf(items)
+
     async def bf(self, items):
         sch = self.sch
         items = list(items)
@@ -228,6 +246,9 @@ class BatcherWorld:
                     B.events.append(('yield', key, obj2))
                     yield key, obj2
             B.finished = True
+            tail = self.prog.get('tail_dur', [0.0] * 4)[b % 4]
+            if tail:
+                await asyncio.sleep(tail)
         except GeneratorExit:
             B.events.append(('closed',))
             raise
@@ -328,12 +349,12 @@ class BatcherWorld:
         opts = dict(max_batch_size=p['max_batch_size'], max_concurrent_batches=p['max_concurrent_batches'],
                     batch_timeout=p['batch_timeout'], retention_timeout=p['retention_timeout'])
         if p['form'] == 'class':
-            self.batcher = aa.AsyncBackgroundBatcher(self.bf, **opts)
+            self.batcher = aa.AsyncBackgroundBatcher(self.bf_entry, **opts)
             self.call = self.batcher
         elif p['form'] == 'func':
-            self.call = aa.async_background_batcher(self.bf, **opts)
+            self.call = aa.async_background_batcher(self.bf_entry, **opts)
         else:
-            self.call = aa.async_background_batcher(**opts)(self.bf)
+            self.call = aa.async_background_batcher(**opts)(self.bf_entry)
         for m in p.get('mutate', ()):
             loop.call_at(m['at'], self.mutate, m)
         tasks = []
@@ -520,6 +541,7 @@ class BatcherWorld:
                               f'{a.key}@{a.t_call} and {b.key}@{b.t_call} (gap {gap} < {bt}); batch {B.b} has '
                               f'{len(B.items)} < {lim} items')
         # dispatch deadline
+        INF = float('inf')
         ends = sorted(B.end for B in self.batches if B.end is not None)
         for B in self.batches:
             last = max(tarr[k] for k, _ in B.items)
@@ -530,7 +552,9 @@ class BatcherWorld:
                     pass
                 continue
             # later than the deadline: must be explained by all slots being busy until B.start
-            busy_until = [X.end for X in self.batches if X.b < B.b and X.end is not None and X.start <= deadline and X.end > deadline]
+            # an execution whose end was never observed is still in progress when the run stops
+            busy_until = [(X.end if X.end is not None else INF) for X in self.batches
+                          if X.b < B.b and X.start <= deadline and (X.end is None or X.end > deadline)]
             running_at_deadline = len(busy_until)
             if running_at_deadline >= mc:
                 free_at = sorted(busy_until)[running_at_deadline - mc]
